@@ -328,6 +328,10 @@ class Ledger(object):
                 return ("ver", v["level"], v["tag"])
             if k == "none":
                 return None
+            if k == "topics":
+                return [("%s%d" % (v.get("p", "t/"), i), v["q"][i % len(v["q"])]) for i in range(v["n"])]
+            if k == "names":
+                return ["%s%d" % (v.get("p", "t/"), i) for i in range(v["n"])]
         if isinstance(v, list):
             return [Ledger._val(x) for x in v]
         return v
